@@ -77,7 +77,7 @@ func genC13(r *Rng) *Case {
 			op.ML = -1
 		}
 		if r.Chance(1, 4) {
-			op.Other = 1 // a 64-byte key whose halves do not belong together: still "any content"
+			op.Other = 1 + r.Intn(2) // a 64-byte key whose halves do not belong together (or whose public half is blank): still "any content"
 		}
 		if op.Opt.Hash == 1 && r.Chance(1, 3) {
 			op.Alias = 9 // wrong pre-hash length
